@@ -15,6 +15,7 @@ type zzRCut struct {
 	data []byte
 	pos  int
 	cut  int
+	cut2 int // second cut (0: none); thorough tier
 	out  []byte
 }
 
@@ -25,6 +26,8 @@ func (c *zzRCut) Read(b []byte) (int, error) {
 	end := len(c.data)
 	if c.pos < c.cut {
 		end = c.cut
+	} else if c.cut2 > c.cut && c.pos < c.cut2 {
+		end = c.cut2
 	}
 	n := copy(b, c.data[c.pos:end])
 	c.pos += n
@@ -57,10 +60,14 @@ func zzH_C04_redis() {
 	}
 	stream := []byte(first + "*1\r\n$4\r\nINFO\r\n")
 	cut := zzLen(1, len(stream))
+	cut2 := 0
+	if zzParam("CUTS", 1) == 2 && cut < len(stream) {
+		cut2 = zzLen(cut, len(stream)) // cut2 == cut: no second cut
+	}
 	rec := &zzRRec{}
 	s := &redisService{}
 	s.SetChannel(rec)
-	s.Handle(context.Background(), &zzRCut{data: stream, cut: cut})
+	s.Handle(context.Background(), &zzRCut{data: stream, cut: cut, cut2: cut2})
 	var got []string
 	for _, e := range rec.evs {
 		m := event.ToMap(e)
